@@ -471,6 +471,11 @@ impl<T: RcObject> Rc<T> {
     /// read-modify-write operations.
     #[inline(always)]
     pub fn new_many<const N: usize>(obj: T) -> [Self; N] {
+        if N == 0 {
+            // No owner is handed out, so nobody would ever release the allocation.
+            drop(obj);
+            return [(); N].map(|_| Self::null());
+        }
         let ptr = RcInner::alloc(obj, N as _);
         [(); N].map(|_| Self {
             ptr: Raw::from(ptr),
@@ -486,6 +491,14 @@ impl<T: RcObject> Rc<T> {
     /// read-modify-write operations.
     #[inline(always)]
     pub fn new_many_iter(obj: T, count: usize) -> NewRcIter<T> {
+        if count == 0 {
+            // No owner will be yielded, so nobody would ever release the allocation.
+            drop(obj);
+            return NewRcIter {
+                remain: 0,
+                ptr: Raw::null(),
+            };
+        }
         let ptr = RcInner::alloc(obj, count as _);
         NewRcIter {
             remain: count,
